@@ -301,6 +301,7 @@ func (x *Exec) resultNames(c *Contract, sig *types.Signature) []string {
 
 func (x *Exec) applyContract(st *State, fr *Frame, retTo ssa.Value, c *Contract, key string, sig *types.Signature, args []Val, pos token.Pos, deferred bool, fn *ssa.Function) []*State {
 	x.usedContracts[key] = true
+	preScript := st.script
 	names := x.paramNames(c, fn, sig, len(args))
 	env := &specEnv{x: x, st: st, vars: map[string]Val{}, pos: token.NoPos, where: "call of " + key}
 	for k, n := range names {
@@ -496,6 +497,11 @@ func (x *Exec) applyContract(st *State, fr *Frame, retTo ssa.Value, c *Contract,
 	}
 	if res != nil {
 		st.boundRefs(res) // results were allocated no later than now (fresh() results got their number above)
+	}
+	if len(c.Ensures) > 0 && wit == nil {
+		// vacuity guard: the callee's postconditions, as assumed here, must be consistent with the path (a
+		// postcondition about a location the callee's modifies clause forgets to list reads "x > x")
+		x.addObligation(st, &Obligation{Name: fmt.Sprintf("%s/cover-call:%s@%s", x.curFunc, key, x.siteName(fr, pos)), Kind: "cover", Goal: tFalse, PreScript: preScript, Desc: "the normal return of " + key + " is feasible under its contract wherever the call is reachable (must be sat on some path)"})
 	}
 	x.finish(st, fr, retTo, res, deferred)
 	return out
